@@ -163,8 +163,8 @@ B('C13.observer-caches-on-self', ['C13'], [(P + 'ssh/key.py', "    def fingerpri
 B('C13.shared-default', ['C13'], [(P + 'tls/extension.py', "        default=attr.Factory(bytearray),", "        default=bytearray(),")])
 B('C13.alias-input', ['C13'], [(P + 'tls/subprotocol.py', "        return TlsApplicationDataMessage(bytearray(parsable)), len(parsable)", "        return TlsApplicationDataMessage(parsable), len(parsable)")])
 B('C14.unsorted-set', ['C14'], [(P + 'common/base.py', "                for item in sorted(obj, key=Serializable._unordered_item_sort_key)", "                for item in obj")])
-B('C14.no-default-branch', ['C14'], [(P + 'common/base.py', "        elif isinstance(obj, (bytes, bytearray)):\n            result = bytes_to_hex_string(obj, separator=':', lowercase=False)\n        else:\n            result = str(obj)",
-                                      "        elif isinstance(obj, (bytes, bytearray)):\n            result = bytes_to_hex_string(obj, separator=':', lowercase=False)\n        elif isinstance(obj, object):\n            result = str(obj)")])
+B('C14.no-default-branch', ['C14'], [(P + 'common/base.py', "            result = str(Serializable._get_date_time_in_utc(obj))\n        else:\n            result = str(obj)",
+                                      "            result = str(Serializable._get_date_time_in_utc(obj))\n        elif isinstance(obj, object):\n            result = str(obj)")])
 # ---------------------------------------------------------------- C15 / C16 / C17 / C18 / C19
 B('C15.section-order', ['C15'], [(P + 'tls/subprotocol.py', "            '-'.join(named_curves),\n            '-'.join(ec_point_formats),", "            '-'.join(ec_point_formats),\n            '-'.join(named_curves),")])
 B('C15.drop-grease-filter', ['C15'], [(P + 'tls/subprotocol.py', "                    for named_curve in extension.elliptic_curves\n                    if (not isinstance(named_curve, TlsInvalidTypeTwoByte) or\n                        named_curve.value.value_type != TlsInvalidType.GREASE)\n",
